@@ -25,6 +25,13 @@ class ClsOracle(object):
     def prop(case):
         cls = clsops.modelled()[case['cls']][0]
         out = []
+        if 'C01' in case['want']:
+            try:
+                obj, _ = cls.parse_immutable(unhx(case['data']))
+                for prop, key, msg in clsops.check_object(obj, suffix=b'\x00\x17')[0]:
+                    out.append((key, msg))
+            except Exception:  # pylint: disable=broad-except
+                pass
         for prop, key, msg in clsops.check_input(cls, unhx(case['data']), want=tuple(case['want']),
                                                  framing=case.get('framing', False)):
             if prop in case['want']:
@@ -118,3 +125,43 @@ def run_cases(run, cases, driver_ok):
         for key, message in ClsOracle.prop(case):
             run.finding(key, message, case)
     return 0
+
+
+def class_property_run(run, driver_ok, want, per_class, n_mut, truncations=0, suffixes=False):
+    """Generated objects of every modelled class -> valid encodings (+ optional suffixes), mutations and
+    truncations; correspondence with the model and the implementation-side oracles named in `want`."""
+    cases = []
+    objs = modelled_object_cases(run, per_class)
+    for name, obj in objs:
+        framing = name in FRAMING_MODELLED
+        try:
+            b = bytes(obj.compose())
+        except Exception as exc:  # pylint: disable=broad-except
+            if 'C01' in want:
+                from harness import canon as _canon
+                run.finding('compose:{}:{}'.format(name, type(exc).__name__),
+                            '{}: compose() of a constructed object raised {} [{}]'.format(
+                                name, core.err_line(exc), _canon.generic(obj)[:300]),
+                            {'kind': 'obj', 'cls': name, 'repr': _canon.generic(obj)[:2000]})
+            run.count('compose_errors', '{}:{}'.format(name, type(exc).__name__))
+            continue
+        if 'C01' in want:
+            bad, _ = clsops.check_object(obj, suffix=b'\x00\x17')
+            for prop, key, msg in bad:
+                run.finding(key, msg, {'kind': 'cls', 'cls': name, 'data': hx(b), 'want': list(want), 'framing': framing})
+        variants = [b]
+        if suffixes:
+            variants.append(b + bytes(run.rng.getrandbits(8) for _ in range(run.rng.randrange(1, 9))))
+            variants.append(b + b)
+        variants.extend(mutations(run.rng, b, n_mut))
+        if truncations:
+            variants.extend(all_truncations(b, truncations))
+        for v in variants:
+            cases.append({'kind': 'cls', 'cls': name, 'data': hx(v), 'want': [w for w in want if w != 'C01'],
+                          'framing': framing})
+    if cases:
+        run.sample(cases[0])
+        run.sample(cases[len(cases) // 2])
+        run.sample(cases[-1])
+    run_cases(run, cases, driver_ok)
+    return cases
